@@ -170,3 +170,16 @@ package ast
 //@ lemma boundEqRefl(b TemporalBound): builtBound(b) ==> b.Equals(b)
 //@ lemma boundEqSym(a TemporalBound, b TemporalBound): a.Equals(b) == b.Equals(a)
 //@ lemma intervalEqRefl(i Interval): builtBound(i.Start) && builtBound(i.End) ==> i.Equals(i)
+
+// ---- C02 / C04: collecting variables only adds to the given set (ASSUMED: recursive over the term structure) -----
+//@ func AddVars(term, m)
+//@   trusted
+//@   requires m != nil
+//@   modifies m
+//@   ensures forall v Variable :: old(m[v]) ==> m[v]
+
+// Lookup in a substitution list is a function of the list and the variable (body: linear search, not verified here).
+//@ func (c ConstSubstList) Get(v)
+//@   pure
+//@   trusted
+//@   modifies nothing
